@@ -31,6 +31,8 @@ mod c12;
 #[cfg(kani)]
 mod c13;
 #[cfg(kani)]
+mod c14;
+#[cfg(kani)]
 mod c15;
 #[cfg(kani)]
 mod c03;
